@@ -5,7 +5,8 @@ import os, pty, sys, termios, gc
 class Stream:
     """buffered=False: write() delivers at once (an interrupted write delivers half of its data);
     buffered=True: write() only stores, flush() delivers (an interrupted flush delivers half of what was stored)"""
-    def __init__(self, fd, fail_at=None, exc=KeyboardInterrupt, buffered=False, cut="half"):
+    def __init__(self, fd, fail_at=None, exc=KeyboardInterrupt, buffered=False, cut="half", tty=True):
+        self.tty = tty
         self.fd, self.fail_at, self.exc, self.ops, self.data, self.log = fd, fail_at, exc, 0, [], []
         self.buffered, self.pending, self.cut = buffered, "", cut
     def _prefix(self, data):
@@ -40,7 +41,7 @@ class Stream:
             self.data.append(data)
     def write(self, s): self._op(s); return len(s)
     def flush(self): self._op()
-    def isatty(self): return True
+    def isatty(self): return self.tty
     def fileno(self): return self.fd
 
 
@@ -255,19 +256,22 @@ def old_draw_faults(m, meta):
     import tests  # noqa: F401
     from replay.C06 import _gif
     from replay.vt import VT
-    from term_image.image import BlockImage, KittyImage
+    from term_image.image import BlockImage, KittyImage, ITerm2Image
     import term_image.image.common as common
     common.time.sleep = lambda s: None
     KittyImage._supported = True
+    ITerm2Image._supported = True
+    ITerm2Image._TERM = "iterm2"
 
     class Boom(Exception):
         pass
     out = []
-    for cls in (BlockImage, KittyImage):
+    # (style, stdout is a tty?): output that is not a tty may still reach one (tee, a wrapper stream) - only the cursor is left alone then
+    for cls, tty in ((BlockImage, True), (KittyImage, True), (ITerm2Image, True), (KittyImage, False), (ITerm2Image, False)):
         for frames, animate in ((3, True), (1, True), (3, False)):        # animation, still image, still draw of an animated image
             image = cls(_gif(frames))
             image.set_size(height=2)
-            st0 = Stream(0)
+            st0 = Stream(0, tty=tty)
             old = sys.stdout
             sys.stdout = st0
             try:
@@ -277,7 +281,7 @@ def old_draw_faults(m, meta):
             n_ops = st0.ops
             # draw()'s own clean-up: the final print (reset, separator, show cursor, newline = 4 writes) and, before it, the
             # cursor-down print of _display_animated's finally clause when there is one
-            cleanup_from = n_ops - 4
+            cleanup_from = n_ops - 4          # (also when stdout is not a tty: the show-cursor argument is then an empty string)
             import re as _re
             if cleanup_from >= 2 and st0.log[cleanup_from - 1] == "" and _re.fullmatch(r"\x1b\[\d+B", st0.log[cleanup_from - 2] or ""):
                 cleanup_from -= 2
@@ -288,7 +292,7 @@ def old_draw_faults(m, meta):
                     if frames > 1:
                         image.seek(1)
                     size0, seek0 = image.size, image.tell()
-                    st = Stream(0, fail_at=k, exc=exc, cut=cut)
+                    st = Stream(0, fail_at=k, exc=exc, cut=cut, tty=tty)
                     old = sys.stdout
                     sys.stdout = st
                     raised = None
@@ -314,7 +318,7 @@ def old_draw_faults(m, meta):
                     if not animation and exc is KeyboardInterrupt and raised != "KeyboardInterrupt":
                         errs.append("still draw swallowed KeyboardInterrupt")
                     if errs:
-                        out.append({"style": cls.__name__, "frames": frames, "animate": animate, "fault": exc.__name__, "at stream operation": k, "of": n_ops, "failed": errs})
+                        out.append({"style": cls.__name__, "stdout_isatty": tty, "cut": cut, "frames": frames, "animate": animate, "fault": exc.__name__, "at stream operation": k, "of": n_ops, "failed": errs})
                         break
                 if out:
                     break
@@ -339,7 +343,7 @@ def old_draw_faults(m, meta):
                             raise _exc()
                         return _real(self, *a, **kw)
                     cls._render_image = failing
-                    st = Stream(0)
+                    st = Stream(0, tty=tty)
                     old = sys.stdout
                     sys.stdout = st
                     raised = None
